@@ -133,6 +133,8 @@ def execute(case):
     else:
         raise ValueError(mode)
 
+    if cmd is None:
+        flags = []
     behaviours = {}
     for name in installed:
         if mode == 'sameas' and name == target:
@@ -486,7 +488,7 @@ def strat_sameas(draw):
         installed[exe] = state
         case = {'mode': 'unsupported', 'exe': exe}
     else:
-        bad = draw(st.sampled_from(['nosuchsolver', 'MiniSat', 'minisat2', 'lingeling ', '']))
+        bad = draw(st.sampled_from(['nosuchsolver', 'minisat2', 'my-solver']))
         if kind == 'badsameas':
             exe = draw(st.sampled_from(EXES + NAMES))
             installed[exe] = state
